@@ -7,9 +7,20 @@ FLOATS = ('Python float is treated as a mathematical real in every proved '
 PROPS = {}
 
 PROPS['C15'] = dict(
+    claimed=True,
+    level_text=('Numeric range/inverse laws of mod, div, wrap, fold, clip, round, roundup, trunc and the '
+                'midi/cps, ratio/midi, oct/cps, amp/db pairs are postconditions on the real kernels and are '
+                'discharged for all int/float arguments (one case per type assignment; floats as reals); the '
+                'opcode tables and the selector each operator method passes are exhaustive finite obligations. '
+                'Lifting over functions/streams/patterns/lists/operands is decided by a bounded run-time '
+                'contract driver (all 127 operator methods x operand kinds x forced samples) — bounded, not proved.'),
+    level_note=('Trusted: z3/cvc5; floats treated as reals; decimal literals exact; axioms log2(2^y)=y, '
+                '2^(log2 x)=x for x>0 (and base 10); scbuiltin wrappers transparent on plain numbers. '
+                'Bounded part: sampled operands, 1e-9/1e-12 tolerances on non-dyadic floats.'),
+    technique='contract-based deductive verification (AST->VC, z3/cvc5) of the numeric kernels + exhaustive tables; bounded run-time contracts for lifting',
     level='other',
-    contracts=['base_builtins'],
-    drivers=[],
+    contracts=['base_builtins', 'synth_specialindex'],
+    drivers=['vf.drivers.C15'],
     assumptions=[FLOATS],
     trusted_base=[],
     unreached=[],
@@ -17,6 +28,19 @@ PROPS['C15'] = dict(
 )
 
 PROPS['C12'] = dict(
+    claimed=True,
+    level_text=('Every clause of the statement is a discharged obligation over the real TempoClock methods: the '
+                'reciprocal/meter class invariants are established by __init__ and preserved by tempo=, etempo, '
+                'beats=, beats_per_bar= (so they hold after any history); there-and-back identities, continuity of '
+                'the (beats, seconds) pair and advance at the new tempo are two-call theorems stated with API calls '
+                'only (ghost lemma functions whose callees are the real bodies inlined from /repo); '
+                'next_time_on_grid is proved not-before-reference, below reference+quant and congruent to phase; '
+                'play(quant) schedules exactly one task exactly there; bar conversions inverse, next_bar a bar '
+                'line not before the beat.'),
+    level_note=('Assumes floats are reals (IEEE rounding ignored: the bounded driver measures the float error), '
+                'clock running state and rt/nrt mode as ghost booleans, NotificationCenter.notify and _sched_add as '
+                'opaque trace events, bi.mod/bi.roundup inlined from builtins.py. Trusted: z3.'),
+    technique='contract-based deductive verification: class invariants + two-call lemma functions over the real method bodies, z3',
     level='proof',
     contracts=['base_clock'],
     drivers=[],
@@ -67,9 +91,18 @@ PROPS['C01'] = dict(
 )
 
 PROPS['C19'] = dict(
+    claimed=True,
+    level_text=('Shape-name table and curve values are exhaustive finite obligations on the real '
+                'Env._shape_number/_curve_value; the array layout, the eleven constructors, client-side '
+                'evaluation (breakpoints, betweenness, hold) and the EnvGen inputs in definition bytes are decided '
+                'by a bounded run-time contract driver against an independent Env reference.'),
+    level_note=('Env._envgen_format/_env_at go through dynamic graph-parameter dispatch and are outside the '
+                'provable subset: bounded only (20k formats, 2.5k envelopes x dense time grids in quick). '
+                'Betweenness tolerance 1e-9 (1e-5 with cubed segments).'),
+    technique='exhaustive table obligations on the real functions + bounded run-time contracts against an independent Env reference',
     level='other',
     contracts=['synth_envelope'],
-    drivers=[],
+    drivers=['vf.drivers.C19'],
     assumptions=[FLOATS],
     trusted_base=[],
     unreached=[],
